@@ -143,7 +143,7 @@ def _hist_subsearches():
             if got.get('files') != want():
                 return {'request': {'op': 'export_history', 'steps': steps}, 'result': {'files': got.get('files'), 'results': got.get('results'), 'expected_files': want(), 'agree': False,
                         'note': 'the first export of a process starts the file afresh'}, 'kind': 'history'}
-    subs.append((('C04', 'C05'), stale))
+    subs.append((('C04', 'C05', 'C06', 'C13'), stale))
 
     def deps():
         # types with dependencies: every order of the same calls must leave the same directory (C06), in particular
